@@ -48,7 +48,7 @@ CHECKS = {
                     "same-entity slots; operator shapes). Behaviour of the compiled binding is not decided.",
             "note": TB + "; pybind11 trusted"},
     "C05": {"engine": "I", "design_ref": "DESIGN.md section 3 C05",
-            "technique": "static analysis: inventory of id-allocation sites with affine offsets and template slot positions, single-writer/allocator shape, text-reaches-output on every path, bounded abstract execution of the two replay loops over symbolic map entries; role tuple of each allocation inside an overload loop tied to the loop's own element; hand-written gateway spellings compared with _wrapper_name(); the .m emitters and generate_collector_function run on sample declarations: ids passed = ids registered, each branch's id belongs to its overload, each routine checks / unwraps / calls for its overload; pointer-constructor text for virtual x base combinations; the .m file and the classdef line evaluated for names of every length around the wrapper's integer constants (I13); a repeated free-function declaration among the samples",
+            "technique": "static analysis: inventory of id-allocation sites with affine offsets and template slot positions, single-writer/allocator shape, text-reaches-output on every path, bounded abstract execution of the two replay loops over symbolic map entries; role tuple of each allocation inside an overload loop tied to the loop's own element; hand-written gateway spellings compared with _wrapper_name(); the .m emitters and generate_collector_function run on sample declarations: ids passed = ids registered, each branch's id belongs to its overload, each routine checks / unwraps / calls for its overload; pointer-constructor text for virtual x base combinations; the .m file and the classdef line evaluated for names of every length around the wrapper's integer constants (I13); a repeated free-function declaration among the samples; mex_function run on the id map the evaluated .m emitters leave behind (I14)",
             "text": "Decides the whole numbering protocol by an inductive argument whose premises are checked: single "
                     "writer, allocator shape, every allocated id embedded once as first gateway argument, affine "
                     "offsets (incl. the virtual pair), the two replay loops produce one case per id routed to the "
@@ -56,7 +56,7 @@ CHECKS = {
                     "user names. Correctness of the routine bodies is C06/C11.",
             "note": TB + "; abstract execution models only the statement forms the loops use (else ANALYSIS-ERROR)"},
     "C06": {"engine": "E+F", "design_ref": "DESIGN.md section 3 C06",
-            "technique": "static analysis: path enumeration of per-argument index counters, normal-form comparison of the two MATLAB type-check builders, role table (unwrap start / nargin adjustment / receiver / .m call shape), structural shape of default expansion, marshalling-table priority, enum-context provenance per role, whole-scope enum look-up, pair element selected by output position; both guard builders run on sample parameter lists and compared; routines of a sample run compared with their overloads; constructors (all-defaulted, defaulted tail, foreign enum) among the evaluated routines; _collector_return run on eight enum/class samples incl. same-named enums of class and namespace (M20); outputs assigned per return shape (M21) and isa class of namespaced parameter types (M22) read off the evaluated .m emitters; truth of program objects follows __len__/__bool__ in the interpreter",
+            "technique": "static analysis: path enumeration of per-argument index counters, normal-form comparison of the two MATLAB type-check builders, role table (unwrap start / nargin adjustment / receiver / .m call shape), structural shape of default expansion, marshalling-table priority, enum-context provenance per role, whole-scope enum look-up, pair element selected by output position; both guard builders run on sample parameter lists and compared; routines of a sample run compared with their overloads; constructors (all-defaulted, defaulted tail, foreign enum) among the evaluated routines; _collector_return run on eight enum/class samples incl. same-named enums of class and namespace (M20); outputs assigned per return shape (M21) and isa class of namespaced parameter types (M22) read off the evaluated .m emitters; truth of program objects follows __len__/__bool__ in the interpreter; evaluated guards are pure conjunctions (M16); an exception raised by the evaluated generator on a legal sample is a finding (M18)",
             "text": "Decides that position indexes advance once per argument on every path, that the two MATLAB-side guard "
                     "builders agree, that per role the C++ unwrap offsets, the expected counts and the .m call shapes are "
                     "mutually consistent, that default expansion has the peel-from-the-tail / rebuild-from-backup shape, "
@@ -96,7 +96,7 @@ CHECKS = {
                     "and names its base, and exactly one MEX source entry exists. File contents are C05/C06/C11.",
             "note": TB},
     "C11": {"engine": "E+X", "design_ref": "DESIGN.md section 3 C11",
-            "technique": "static analysis: per-routine ownership obligations on constant-folded, tokenised C++ routine templates (create=>register, destroy-once, unload hook, base handle, ownership form of returned handles) + memo-key completeness + clang AST handle protocol of matlab.h + id-role inventory (every id carries its role; holes only as the virtual up-cast slot) + pair element by position; clang AST conversion chains of wrap<T> (helpers expanded in place) checked for lossy steps; pointer-constructor text, guard builders and routines by evaluation; string converter forms; string converters run by the header interpreter on boundary lengths (H21); the preamble and the class registry by evaluation (H22, H23); isa class of namespaced parameter types (H24)",
+            "technique": "static analysis: per-routine ownership obligations on constant-folded, tokenised C++ routine templates (create=>register, destroy-once, unload hook, base handle, ownership form of returned handles) + memo-key completeness + clang AST handle protocol of matlab.h + id-role inventory (every id carries its role; holes only as the virtual up-cast slot) + pair element by position; clang AST conversion chains of wrap<T> (helpers expanded in place) checked for lossy steps; pointer-constructor text, guard builders and routines by evaluation; string converter forms; string converters run by the header interpreter on boundary lengths (H21); the preamble and the class registry by evaluation (H22, H23); isa class of namespaced parameter types (H24); no use of an array's data after mxDestroyArray / mxFree (H25); base-class handle decided by running the routines (H4)",
             "text": "Decides per-routine ownership obligations (each allocated handle registered and returned, destructor "
                     "erases then deletes once, unload hook before first registration, base handle handed over in the "
                     "right slot, handle protocol in matlab.h read as written). Call histories under MATLAB's lifetime "
@@ -146,7 +146,7 @@ CHECKS = {
                     "names select the documented member. Exact decoding of the literal for all Unicode is not decided.",
             "note": TB + "; ElementTree find()/text may be None"},
     "C18": {"engine": "X", "design_ref": "DESIGN.md section 3 C18",
-            "technique": "static analysis: clang -fsyntax-only AST (JSON) of matlab.h against declaration-only stubs; writer/reader table agreement, guard-before-use ordering, typed/bounded raw stores, loop-nest shape and loop-header comparison, truth-table comparison of every error guard, argument checks of array-creating and MATLAB-calling functions; conversion chains from the wrapped value to the raw store (implicit and explicit casts, locals, helper parameters) checked for lossy steps; copy loops of wrap / unwrap for vectors and matrices run by an interpreter over the clang AST on sample arrays with symbolic cells; unwrap<string>/wrap<string> run by the header interpreter (local buffers with uninitialised bytes, mxGetString's cut and return code, mxArrayToString, std::string from pointer) on lengths next to every constant the function mentions, on char columns/matrices and non-char arrays (K15); checkScalar run on twelve shapes incl. N-d ones (K6)",
+            "technique": "static analysis: clang -fsyntax-only AST (JSON) of matlab.h against declaration-only stubs; writer/reader table agreement, guard-before-use ordering, typed/bounded raw stores, loop-nest shape and loop-header comparison, truth-table comparison of every error guard, argument checks of array-creating and MATLAB-calling functions; conversion chains from the wrapped value to the raw store (implicit and explicit casts, locals, helper parameters) checked for lossy steps; copy loops of wrap / unwrap for vectors and matrices run by an interpreter over the clang AST on sample arrays with symbolic cells; unwrap<string>/wrap<string> run by the header interpreter (local buffers with uninitialised bytes, mxGetString's cut and return code, mxArrayToString, std::string from pointer) on lengths next to every constant the function mentions, on char columns/matrices and non-char arrays (K15); checkScalar run on twelve shapes incl. N-d ones (K6); no use of an array's data after mxDestroyArray / mxFree (K17); numeric_limits, initialiser lists and char arrays in the byte model (K16)",
             "text": "Decides the structural conditions of loss-free conversion in matlab.h: wrap/unwrap tables "
                     "agree; scalar readers check shape first and read through their own type; raw stores are "
                     "typed and fit the created array (LP64, and ILP32 in the thorough tier); vector/matrix "
@@ -156,7 +156,7 @@ CHECKS = {
                     "call histories are not decided.",
             "note": "trusted: clang 14 parser/Sema; /verif/stubs declare the documented MEX C API and minimal gtsam types"},
     "C19": {"engine": "G", "design_ref": "DESIGN.md section 3 C19",
-            "technique": "static analysis: memoisation-enabled lint over all modules + left-recursion/nullable-repetition/alternative-order analysis of the grammar IR, recursion fan-out of methods reachable from parse actions (call graph by name), no nested parse inside parse actions, regex ASTs (re._parser) checked for ambiguous nested repetition; call graph over methods, properties and constructors of the node classes: a function on a cycle enters it once per child (Z9)",
+            "technique": "static analysis: memoisation-enabled lint over all modules + left-recursion/nullable-repetition/alternative-order analysis of the grammar IR, recursion fan-out of methods reachable from parse actions (call graph by name), no nested parse inside parse actions, regex ASTs (re._parser) checked for ambiguous nested repetition; call graph over methods, properties and constructors of the node classes: a function on a cycle enters it once per child (Z9) (functions reachable from parse actions only)",
             "text": "Decides the structural preconditions of polynomial parsing (memoisation on, unconditional, "
                     "never overridden; no left recursion; no nullable repetition). No time bound is claimed: "
                     "timing is a run-time quantity.",
